@@ -308,7 +308,10 @@ def allSkeletons : List (List String) :=
    Gen.Skel.Mem_GetList, Gen.Skel.Mem_AppendToList, Gen.Skel.Mem_RemoveFromList, Gen.Skel.Mem_SetHash,
    Gen.Skel.Mem_GetHash, Gen.Skel.Mem_GetAllHash, Gen.Skel.Mem_DeleteHash, Gen.Skel.Mem_Incr,
    Gen.Skel.Mem_IncrBy, Gen.Skel.Mem_SetExpiration, Gen.Skel.Mem_GetExpiration, Gen.Skel.Mem_CleanupExpired,
-   Gen.Skel.Mem_SetNX, Gen.Skel.Mem_CompareAndSwap, Gen.Skel.Mem_expirationFor]
+   Gen.Skel.Mem_SetNX, Gen.Skel.Mem_CompareAndSwap, Gen.Skel.Mem_expirationFor,
+   -- not part of the modelled call vocabulary, but they touch the same guarded map
+   Gen.Skel.Mem_Watch, Gen.Skel.Mem_QueryByPrefix, Gen.Skel.Mem_ZAdd, Gen.Skel.Mem_ZRem, Gen.Skel.Mem_ZRangeByScore,
+   Gen.Skel.Mem_ZRemRangeByScore, Gen.Skel.Mem_ZScore, Gen.Skel.Mem_ZCard, Gen.Skel.Mem_onClose]
 
 /-- Every modelled method of the current source is one atomic step (T2). -/
 def atomicCalls : Bool := allSkeletons.all atomicMethod
